@@ -46,7 +46,7 @@ func c07RunHistory(r *verifkit.Run, t *testing.T, i int, family string, surfs []
 func TestVerifC07(t *testing.T) {
 	r := verifkit.Start(t, "C07", "main")
 	defer r.Finish()
-	r.SetRule("Each case is one PRNG-generated history (appends in strict/server-allocated/trusted modes with right and wrong bases, follower applies with checkpoints, suffix truncations, bounded prefix trims, retention adoption, checkpoint stores, lease close/re-acquire, warm-cache eviction, whole-DB close+reopen, random bounded reads) over 2-6 channels on one engine, run on the typed ChannelLog, the compat Engine/ChannelStore and the channel/store Factory surfaces; every result is compared to a sequential reference model and every mutation is followed by a full audit. Non-trivial = some channel saw a truncation or trim, then an accepted append, then a DB reopen (with full audit). Distinct by surface family + collapsed op-kind sequence.")
+	r.SetRule("Each case is one PRNG-generated history (appends in strict/server-allocated/trusted modes with right and wrong bases, follower applies with checkpoints, suffix truncations, bounded prefix trims, retention adoption, checkpoint stores, lease close/re-acquire, warm-cache eviction, whole-DB close+reopen, random bounded reads; about one op in 12, and half of the first ops after a lease/DB barrier, run under a countdown context that reports cancellation after the N-th poll - such an op must either report the context error and leave the log unchanged (or completely applied, decided by reading back) or return the model's answer) over 2-6 channels on one engine, run on the typed ChannelLog, the compat Engine/ChannelStore and the channel/store Factory surfaces; every result is compared to a sequential reference model and every mutation is followed by a full audit. Non-trivial = some channel saw a truncation or trim, then an accepted append, then a DB reopen (with full audit). Distinct by surface family + collapsed op-kind sequence.")
 	r.Assume("tmpfs-backed t.TempDir(); fsync semantics are not part of this check (C09)")
 	r.Assume("trusted-contiguous and server-allocated batches respect their documented caller contract (no stored duplicates / allocator-fresh ids)")
 	r.Assume("typed ChannelLog surface, random body only: payloads are non-empty and TruncateFrom never cuts below the persisted RetainedMaxSeq; both shapes are legal inputs and are exercised by the isolated probe cases (signatures typed:probe:accepted-empty-payload-row-unreadable and typed:probe:truncate-after-trim-leo-resurrected-on-reopen) so that the random histories do not all end on the same two defects")
@@ -61,7 +61,7 @@ func TestVerifC07(t *testing.T) {
 		}
 		rng := r.Rand(uint64(i), 1)
 		dir := filepath.Join(base, fmt.Sprintf("h%d", i))
-		p := c07Params{Ops: ops, PairPool: 8 + rng.IntN(57), IDPool: 6 + rng.IntN(40), PCollide: 0.15, AllowDBOps: true, BigPayload: i%9 == 0, IDBase: 0}
+		p := c07Params{Ops: ops, PairPool: 8 + rng.IntN(57), IDPool: 6 + rng.IntN(40), PCollide: 0.15, AllowDBOps: true, BigPayload: i%9 == 0, IDBase: 0, CancelOneIn: 12}
 		var surfs []c07Surface
 		var family string
 		switch i % 8 {
